@@ -32,7 +32,7 @@ func feedEvents(route string, evs []model.Ev, u *gotype.Unfolder) (Outcome, stri
 	if route == "" || route == "direct" {
 		var at int
 		o := guard(func() error {
-			n, err := model.Apply(evs, u)
+			n, err := model.ApplyScribble(evs, u)
 			at = n
 			return err
 		})
@@ -43,7 +43,20 @@ func feedEvents(route string, evs []model.Ev, u *gotype.Unfolder) (Outcome, stri
 	if eo.Panicked() || eo.Err != nil {
 		return eo, "encoding the stream with the " + route + " encoder"
 	}
-	o := guard(func() error { return cd.Parse(data, u) })
+	// whole buffer, or (2 of 3 documents, decided by the document itself) through
+	// ParseReader over small reads: strings and keys then arrive by reference
+	// from a copy buffer that is refilled at the same address
+	var o Outcome
+	switch chunk := []int{0, 7, 1 + len(data)%29}[len(data)%3]; chunk {
+	case 0:
+		o = guard(func() error { return cd.Parse(data, u) })
+	default:
+		var chunks [][]byte
+		for i := 0; i < len(data); i += chunk {
+			chunks = append(chunks, append([]byte{}, data[i:min(i+chunk, len(data))]...))
+		}
+		o = guard(func() error { _, err := cd.ParseReader(&chunkReader{chunks: chunks}, u); return err })
+	}
 	return o, fmt.Sprintf("parsing %q", trunc(data))
 }
 
